@@ -86,3 +86,17 @@ func HC10_Search() {
 	sym.Assert(signIs(exactDet(o, e, p), got), "OrientationIndex is the sign of the exact determinant")
 	sym.Cover("end")
 }
+
+// useOrientationSummaryH: bigxy.OrientationIndex replaced by the sign of the exact determinant (C10).
+func useOrientationSummaryH() {
+	sym.Replace("github.com/twpayne/go-geom/bigxy.OrientationIndex", func(o, e, p geom.Coord) orientation.Type {
+		d := exactDet(o, e, p)
+		if d > 0 {
+			return orientation.CounterClockwise
+		}
+		if d < 0 {
+			return orientation.Clockwise
+		}
+		return orientation.Collinear
+	})
+}
